@@ -1,6 +1,11 @@
 package main
 
-import "math/big"
+import (
+	"fmt"
+	"math/big"
+
+	"golang.org/x/tools/go/ssa"
+)
 
 func bigInt(v int64) *big.Int { return big.NewInt(v) }
 func bigAdd(a *big.Int, k int64) *big.Int { return new(big.Int).Add(a, big.NewInt(k)) }
@@ -372,4 +377,34 @@ func (c *Ctx) instantiate(fs []*Term) []*Term {
 		}
 	}
 	return out
+}
+
+// ---------- parameter names ----------
+
+// paramAlias: function -> the names its contract uses for the parameters (declared with `params`). If the
+// count matches the function on the current tree, clauses see the parameters under these names, so that a
+// renamed parameter does not invalidate the contract.
+var paramAlias = map[string][]string{}
+
+func paramNameOf(fn *ssa.Function, i int) string {
+	if al := paramAlias[relName(fn)]; len(al) == len(fn.Params) {
+		return al[i]
+	}
+	n := fn.Params[i].Name()
+	if n == "" || n == "_" {
+		n = fmt.Sprintf("p%d", i)
+	}
+	return n
+}
+
+// freeVarNameOf: the name clauses use for a captured variable. A captured variable whose name collides with
+// a (declared) parameter name is only possible after the parameter was renamed in the code; it is then
+// visible as <name>_outer.
+func freeVarNameOf(fn *ssa.Function, fv *ssa.FreeVar) string {
+	for i := range fn.Params {
+		if paramNameOf(fn, i) == fv.Name() {
+			return fv.Name() + "_outer"
+		}
+	}
+	return fv.Name()
 }
